@@ -101,6 +101,7 @@ namespace net
     // ---- reference ----
     ZRef z;
     std::vector<smt::var> blist;     // known Bool variables (index 0 = FALSE_var), registration order
+    std::vector<smt::var> tlist;     // the fresh variables that creation calls returned, creation order
     std::set<smt::var> bknown;
     std::map<smt::var, FP> lra_atoms;       // LRA literal -> atom
     std::map<smt::var, DLEdge> dl_edges;    // DL literal -> edge (to - from <= dist)
@@ -144,7 +145,12 @@ namespace net
     }
     lit ref_lit(long s, long i) const
     {
-      size_t k = static_cast<size_t>(i < 0 ? -i : i) % blist.size();
+      size_t k = static_cast<size_t>(i < 0 ? -i : i);
+      // references >= 1000 count back from the most recently created variable (so that a generator can relate what it just made)
+      // references >= 2000 address the variables that creation calls returned (constraint literals), in creation order
+      if (k >= 2000 && !tlist.empty())
+        return lit(tlist[(k - 2000) % tlist.size()], (s & 1) != 0);
+      k = k >= 1000 ? blist.size() - 1 - (k - 1000) % blist.size() : k % blist.size();
       return lit(blist[k], (s & 1) != 0);
     }
     bool known(lit l) const { return bknown.count(variable(l)) != 0; }
